@@ -27,6 +27,7 @@ inductive Conv where
   | ho      -- lo ≤ x < hi
   | oc      -- lo < x ≤ hi
   | hist    -- lo ≤ x < hi, and the last bin also contains its upper edge (np.histogram)
+  | ocf     -- lo < x ≤ hi, and the first bin also contains its lower edge
   deriving DecidableEq, Repr
 
 def edgePairs : List Rat → List (Rat × Rat)
@@ -39,11 +40,17 @@ def edgePairsL : List Rat → List (Rat × Rat × Bool)
   | a :: b :: c :: rest => (a, b, false) :: edgePairsL (b :: c :: rest)
   | _ => []
 
+/-- pairs with a flag on the first one (for `Conv.ocf`) -/
+def edgePairsF : List Rat → List (Rat × Rat × Bool)
+  | a :: b :: rest => (a, b, true) :: (edgePairsL (b :: rest)).map fun e => (e.1, e.2.1, false)
+  | _ => []
+
 def inBin (c : Conv) (e : Rat × Rat × Bool) (x : Rat) : Bool :=
   match c with
   | .ho => decide (e.1 ≤ x ∧ x < e.2.1)
   | .oc => decide (e.1 < x ∧ x ≤ e.2.1)
   | .hist => decide (e.1 ≤ x ∧ (x < e.2.1 ∨ (e.2.2 = true ∧ x = e.2.1)))
+  | .ocf => decide ((e.1 < x ∨ (e.2.2 = true ∧ x = e.1)) ∧ x ≤ e.2.1)
 
 /-- number of bins of the convention that contain x -/
 def binCount (c : Conv) (edges : List Rat) (x : Rat) : Nat :=
@@ -52,6 +59,13 @@ def binCount (c : Conv) (edges : List Rat) (x : Rat) : Nat :=
 /-- the members of each bin -/
 def bins {α : Type} (c : Conv) (edges : List Rat) (key : α → Rat) (cs : List α) : List (List α) :=
   (edgePairsL edges).map fun e => cs.filter fun a => inBin c e (key a)
+
+/-- the same with the flag on the first pair (bins of `Conv.ocf`) -/
+def binCountF (c : Conv) (edges : List Rat) (x : Rat) : Nat :=
+  ((edgePairsF edges).filter fun e => inBin c e x).length
+
+def binsF {α : Type} (c : Conv) (edges : List Rat) (key : α → Rat) (cs : List α) : List (List α) :=
+  (edgePairsF edges).map fun e => cs.filter fun a => inBin c e (key a)
 
 def StrictInc : List Rat → Prop
   | a :: b :: rest => a < b ∧ StrictInc (b :: rest)
